@@ -1206,3 +1206,91 @@ fn joiner_split_case(which: u8) {
 }
 estubs! { #[kani::unwind(64)] fn c13_epoch_joiner_head() { joiner_split_case(0); } }
 estubs! { #[kani::unwind(64)] fn c13_epoch_joiner_confirm_init() { joiner_split_case(1); } }
+
+// ------------------------------------------------------------------------------------------------
+// Secret tree end to end on a 2-leaf tree (RFC 9420 §9), with the tree's and the ratchets' BTreeMaps replaced
+// by the associative-array model (models::btmap, kani::stub): first use of a leaf consumes the root
+// (left/right derivation, root secret deleted), initialises both ratchets of the leaf, steps the requested
+// one; the key handed out is gone afterwards; the other key type and the sibling leaf use other secrets.
+macro_rules! tstubs {
+    ($(#[$m:meta])* fn $name:ident() $body:block) => {
+        #[kani::proof]
+        $(#[$m])*
+        #[kani::stub(mls_rs::group::key_schedule::kdf_expand_with_label, mls_rs::verif::derive::kdf_expand_with_label_plain)]
+        #[kani::stub(zeroize::optimization_barrier, crate::stubs::optimization_barrier_stub)]
+        #[kani::stub(zeroize::volatile_set, crate::stubs::volatile_set_stub)]
+        #[kani::stub(alloc::collections::BTreeMap::new, crate::models::btmap::bt_new)]
+        #[kani::stub(alloc::collections::BTreeMap::insert, crate::models::btmap::bt_insert)]
+        #[kani::stub(alloc::collections::BTreeMap::remove_entry, crate::models::btmap::Bt::remove_entry)]
+        #[kani::stub(alloc::collections::BTreeMap::remove, crate::models::btmap::Bt::remove)]
+        #[kani::stub(alloc::collections::BTreeMap::get, crate::models::btmap::Bt::get)]
+        #[kani::stub(alloc::collections::BTreeMap::len, crate::models::btmap::bt_len)]
+        fn $name() $body
+    };
+}
+
+#[cfg(feature = "fs_core")]
+fn secret_tree_first_use_case(leaf_node: u32, app: bool) {
+    use mls_rs::verif::MlsError;
+    let mut log = Log::new(12);
+    let uf = Uf::new(&mut log);
+    let enc = vec_of(any_bytes::<NH>());
+    let mut t: SecretTree<u32> = SecretTree::new(2u32, zeroize::Zeroizing::new(enc.clone()));
+    let kt = if app { KeyType::Application } else { KeyType::Handshake };
+    let other = if app { KeyType::Handshake } else { KeyType::Application };
+    match t.message_key_generation(&uf, leaf_node, kt, 0) {
+        Ok(k) => {
+            assert!(log.calls.len() == 7, "2 tree + 2 ratchet initialisations + 3 derivations of the step");
+            // tree level
+            let (li, ri) = if is_expand_plain(&log.calls[0], &enc, b"tree", b"left", NH) { (0, 1) } else { (1, 0) };
+            assert!(is_expand_plain(&log.calls[li], &enc, b"tree", b"left", NH));
+            assert!(is_expand_plain(&log.calls[ri], &enc, b"tree", b"right", NH));
+            let mine = if leaf_node == 0 { li } else { ri };
+            let leaf_secret = rk::fix::<NH>(&log.calls[mine].out);
+            // ratchet initialisation: both ratchets from the LEAF's secret
+            let (ai, hi) = if is_expand_plain(&log.calls[2], &leaf_secret, b"application", &[], NH) { (2, 3) } else { (3, 2) };
+            assert!(is_expand_plain(&log.calls[ai], &leaf_secret, b"application", &[], NH), "application ratchet from the leaf secret");
+            assert!(is_expand_plain(&log.calls[hi], &leaf_secret, b"handshake", &[], NH), "handshake ratchet from the leaf secret");
+            let rs = rk::fix::<NH>(&log.calls[if app { ai } else { hi }].out);
+            // the step at generation 0 of the requested ratchet
+            let g0 = 0u32.to_be_bytes();
+            let (nonce, key, generation) = message_key_parts(&k);
+            assert!(generation == 0);
+            assert!(derived_from(&log, 4, 7, true, &rs, b"nonce", &g0, NN, nonce), "nonce from the requested ratchet's secret");
+            assert!(derived_from(&log, 4, 7, true, &rs, b"key", &g0, NK, key), "key from the requested ratchet's secret");
+            // forward secrecy of the tree: the root secret is gone, the sibling's secret and the leaf's ratchets remain
+            assert!(secret_tree_root_secret(&t).is_none(), "the consumed root secret is still stored");
+            assert!(secret_tree_len(&t) == 2);
+            forget(k);
+            // single use
+            match t.message_key_generation(&uf, leaf_node, kt, 0) {
+                Ok(k2) => { forget(k2); assert!(false, "the same generation was handed out twice"); }
+                Err(e) => { assert!(matches!(e, MlsError::KeyMissing(0))); forget(e); }
+            }
+            assert!(log.calls.len() == 7, "a refused request derives nothing");
+            // the other key type of the same leaf still has its generation 0, from the OTHER ratchet secret
+            let os = rk::fix::<NH>(&log.calls[if app { hi } else { ai }].out);
+            match t.message_key_generation(&uf, leaf_node, other, 0) {
+                Ok(k3) => {
+                    assert!(log.calls.len() == 10);
+                    let (n3, k3k, g3) = message_key_parts(&k3);
+                    assert!(g3 == 0);
+                    assert!(derived_from(&log, 7, 10, true, &os, b"nonce", &g0, NN, n3));
+                    assert!(derived_from(&log, 7, 10, true, &os, b"key", &g0, NK, k3k));
+                    forget(k3);
+                }
+                Err(e) => { forget(e); assert!(false, "the other key type was refused"); }
+            }
+            assert!(secret_tree_len(&t) == 2);
+        }
+        Err(e) => { forget(e); assert!(false, "first use of a leaf failed"); }
+    }
+    forget(t);
+    forget(log);
+    kani::cover!(true);
+}
+
+#[cfg(feature = "fs_core")]
+tstubs! { #[kani::unwind(14)] fn c13_secret_tree_first_use_leaf0_app() { secret_tree_first_use_case(0, true); } }
+#[cfg(feature = "fs_core")]
+tstubs! { #[kani::unwind(14)] fn c13_secret_tree_first_use_leaf1_hs() { secret_tree_first_use_case(2, false); } }
